@@ -149,6 +149,27 @@ func propC19(r *Run) {
 				}}}
 			}
 		}
+		// the operator loosens the hooks directory to world-writable while the agent runs: from
+		// then on nothing in it may be executed (liveness of earlier changes is not judged in
+		// such a run, the safety clauses are)
+		chmodStep := -1
+		if dirPerm&0o002 == 0 && r.Choose("chmod-hooks-dir-while-running", 6) == 0 {
+			prev := extra
+			extra = func() []action {
+				var out []action
+				if prev != nil {
+					out = prev()
+				}
+				if chmodStep < 0 {
+					out = append(out, action{3, "chmod o+w on the hooks directory", func() {
+						chmodStep = w.step
+						w.fs.SetPerm(hdir, fsMode(dirPerm|0o002))
+						r.Count("fault:hooks-dir-made-world-writable")
+					}})
+				}
+				return out
+			}
+		}
 		clockMenu := []time.Duration{time.Nanosecond, time.Millisecond, time.Second, 2500 * time.Millisecond, 5*time.Second - time.Nanosecond, 5 * time.Second, 5*time.Second + time.Nanosecond, 60 * time.Second, 61 * time.Second}
 		o := loopOpts{maxSteps: 600, wClient: 3, wLoop: 4, wClock: 3, wExtra: 1, clockMenu: clockMenu, extra: extra}
 		if r.Choose("fs-yields", 6) == 0 {
@@ -175,6 +196,11 @@ func propC19(r *Run) {
 			}
 			if !el {
 				r.Fail("hooks/ineligible-executed", "%s was executed (hooks dir mode %o, entries %+v)", p.Path, dirPerm, ents)
+			}
+			if chmodStep >= 0 && p.Step > chmodStep+80 {
+				// a round that was already under way when the mode changed may finish; 80 scheduler
+				// steps later every round has looked at the directory again
+				r.Fail("hooks/ineligible-executed", "%s was executed at step %d although the hooks directory has been world-writable since step %d", p.Path, p.Step, chmodStep)
 			}
 			if len(p.Args) != 2 || p.Args[0] != p.Path || p.Args[1] != "update" {
 				r.Fail("hooks/argv", "%s started with argv %q, expected [path update]", p.Path, p.Args)
@@ -232,7 +258,11 @@ func propC19(r *Run) {
 			changes = append(changes, change{at, c})
 		}
 		sort.Slice(changes, func(i, j int) bool { return changes[i].step < changes[j].step })
-		for _, ch := range changes {
+		obligations := changes
+		if chmodStep >= 0 {
+			obligations = nil
+		}
+		for _, ch := range obligations {
 			for _, e := range eligible {
 				satisfied := false
 				why := "it was not started at or after the change"
